@@ -99,3 +99,59 @@ impl ByteSrc {
             },
     { unimplemented!() }
 }
+
+// ---- encoding_rs_io::DecodeReaderBytesBuilder (external dependency; assumed contract taken from its documentation) ----
+// The builder's switches are ghost state; `build` yields a decoder that removes a leading UTF-8 byte order mark
+// exactly when the documentation says so: BOM sniffing on (default) and either transcoding (utf8_passthru off, the
+// default: the UTF-8 decoder is created "with BOM removal") or strip_bom requested explicitly.
+#[verifier::external_body]
+pub struct RawReader { _p: () }
+#[verifier::external_body]
+pub struct EncodingRef { _p: () }
+#[verifier::external_body]
+pub struct DecodeReaderBytesBuilder { _p: () }
+#[verifier::external_body]
+pub struct DecodeReaderBytes { _p: () }
+
+impl DecodeReaderBytes {
+    pub uninterp spec fn strips_utf8_bom(&self) -> bool;
+    pub uninterp spec fn sniffs_encoding(&self) -> bool;
+}
+
+impl DecodeReaderBytesBuilder {
+    pub uninterp spec fn forced_encoding(&self) -> bool;
+    pub uninterp spec fn passthru(&self) -> bool;
+    pub uninterp spec fn strip(&self) -> bool;
+    pub uninterp spec fn sniffing(&self) -> bool;
+
+    #[verifier::external_body]
+    pub fn new() -> (r: DecodeReaderBytesBuilder)
+        ensures !r.forced_encoding() && !r.passthru() && !r.strip() && r.sniffing(),
+    { unimplemented!() }
+
+    #[verifier::external_body]
+    pub fn encoding(self, e: Option<EncodingRef>) -> (r: DecodeReaderBytesBuilder)
+        ensures r.forced_encoding() == (e is Some) && r.passthru() == self.passthru() && r.strip() == self.strip() && r.sniffing() == self.sniffing(),
+    { unimplemented!() }
+
+    #[verifier::external_body]
+    pub fn utf8_passthru(self, yes: bool) -> (r: DecodeReaderBytesBuilder)
+        ensures r.forced_encoding() == self.forced_encoding() && r.passthru() == yes && r.strip() == self.strip() && r.sniffing() == self.sniffing(),
+    { unimplemented!() }
+
+    #[verifier::external_body]
+    pub fn strip_bom(self, yes: bool) -> (r: DecodeReaderBytesBuilder)
+        ensures r.forced_encoding() == self.forced_encoding() && r.passthru() == self.passthru() && r.strip() == yes && r.sniffing() == self.sniffing(),
+    { unimplemented!() }
+
+    #[verifier::external_body]
+    pub fn bom_sniffing(self, yes: bool) -> (r: DecodeReaderBytesBuilder)
+        ensures r.forced_encoding() == self.forced_encoding() && r.passthru() == self.passthru() && r.strip() == self.strip() && r.sniffing() == yes,
+    { unimplemented!() }
+
+    #[verifier::external_body]
+    pub fn build(self, rdr: RawReader) -> (r: DecodeReaderBytes)
+        ensures r.strips_utf8_bom() == (self.sniffing() && (!self.passthru() || self.strip())),
+                r.sniffs_encoding() == (self.sniffing() && !self.forced_encoding()),
+    { unimplemented!() }
+}
